@@ -43,6 +43,10 @@ pub fn inputs(seed: u64) -> impl Iterator<Item = Value> {
 use async_graphql::dynamic::*;
 
 fn tref(s: &str) -> TypeRef { parse(s.trim()) }
+/// "T" or "T = 1" (integer default)
+fn arg(name: &str, ty: &str) -> InputValue {
+    match ty.split_once('=') { Some((t, d)) => InputValue::new(name.to_string(), tref(t)).default_value(async_graphql::Value::from(d.trim().parse::<i32>().unwrap())), None => InputValue::new(name.to_string(), tref(ty)) }
+}
 /// "kind Name [implements A & B] { f(arg: T): T, ... }" | "union U = A | B" | "enum E { X, Y }" | "scalar S"
 fn build(defs: &[&str], query: &str) -> Result<Schema, SchemaError> {
     let mut b = Schema::build(query, None, None);
@@ -62,12 +66,12 @@ fn build(defs: &[&str], query: &str) -> Result<Schema, SchemaError> {
             "type" => { let mut o = Object::new(name);
                 for r in rest.iter().filter(|x| **x != "implements" && **x != "&") { o = o.implement(*r); }
                 for (f, args, ty) in &fields { let mut fd = Field::new(f.clone(), tref(ty), |_| FieldFuture::new(async { Ok(None::<async_graphql::Value>) }));
-                    for (an, at) in args { fd = fd.argument(InputValue::new(an.clone(), tref(at))); } o = o.field(fd); }
+                    for (an, at) in args { fd = fd.argument(arg(an, at)); } o = o.field(fd); }
                 b = b.register(o); }
             "interface" => { let mut o = Interface::new(name);
                 for r in rest.iter().filter(|x| **x != "implements" && **x != "&") { o = o.implement(*r); }
                 for (f, args, ty) in &fields { let mut fd = InterfaceField::new(f.clone(), tref(ty));
-                    for (an, at) in args { fd = fd.argument(InputValue::new(an.clone(), tref(at))); } o = o.field(fd); }
+                    for (an, at) in args { fd = fd.argument(arg(an, at)); } o = o.field(fd); }
                 b = b.register(o); }
             "input" => { let mut o = InputObject::new(name); for (f, _, ty) in &fields { o = o.field(InputValue::new(f.clone(), tref(ty))); } b = b.register(o); }
             "union" => { let mut u = Union::new(name); for m in d.split_once('=').unwrap().1.split('|') { u = u.possible_type(m.trim()); } b = b.register(u); }
@@ -140,6 +144,9 @@ pub fn build_inputs(_seed: u64, open: &[String]) -> impl Iterator<Item = Value> 
         bad(vec!["type Query { n: Node }", "interface Node { f(a: Missing): Int }", "type P implements Node { f(a: Int): Int }"]),
         bad(vec!["type Query { a(x: In): Int }", "input In { f: Missing }"]),
         bad(vec!["type Query { u: U }", "union U = P | Missing", "type P { x: Int }"]),
+        bad(vec!["type Query { n: Node }", "interface Node { children(filter: Missing): [Node!] }", "type Folder implements Node { children: [Node!] }"]),       // unknown argument type on an interface field nobody repeats
+        bad(vec!["type Query { s: Shape }", "interface Shape { area(scale: Int! = 1): Int }", "type Square implements Shape { area: Int }"]),                    // a required interface argument stays required when it has a default
+        ok(vec!["type Query { s: Shape }", "interface Shape { area(scale: Int! = 1): Int }", "type Square implements Shape { area(scale: Int! = 2): Int }"]),
         // type kinds in positions: fields need output types, arguments and input fields need input types -- on objects AND interfaces
         bad(vec!["type Query { n: Node }", "interface Node { f: In }", "type P implements Node { f: In }", "input In { x: Int }"]),
         bad(vec!["type Query { n: Node }", "interface Node { f(a: P): Int }", "type P implements Node { f(a: P): Int }"]),
